@@ -332,11 +332,6 @@ theorem C01_component_roundtrip_cookware {α : Type} [Arith α] (c : AComp) (p :
         { s with cur := A.length + ts.length }) ∧ CwMatches s.cs c cw :=
   rt_cookwareP c p s hwf hp A ts rest hs ht hc hrest hrun
 
-example : ({ mods := [.minus], name := [tk .word "large".toList, tk .ws [' '], tk .word "pot".toList],
-    qty := some { val := .num (.int ['2']) } } : AComp).wfCookware toyCharSpec C01_allExt = true := by decide
-example : ({ name := [tk .word "pan".toList], qty := some { val := .num (.int ['2']), unit := some [tk .word ['l']] } } : AComp).wfCookware
-    toyCharSpec C01_allExt = false := by decide
-
 /-! examples: `@-?olive oil |EVOO {= 1 1 / 2 % fl oz }(cold pressed)` satisfies the side
     conditions under the full extension set; each clause of `AComp.wf` is needed -/
 def C01_allExt : Ext := ⟨Gen.EXT_COMPONENT_MODIFIERS ||| Gen.EXT_COMPONENT_ALIAS ||| Gen.EXT_ADVANCED_UNITS |||
@@ -379,5 +374,16 @@ example : ({ name := [tk .word ['x']], note := some [tk .word ['a'], tk .closePa
 /-- … and what follows: without a note a `(`…`)` directly after `}` would be taken as the note -/
 example : restOK { name := [tk .word ['x']] } [tk .openParen ['(']] = false := by decide
 example : restOK { name := [tk .word ['x']] } [tk .ws [' '], tk .openParen ['(']] = true := by decide
+
+/-- cookware: `#-large pot{2}` passes, a unit does not -/
+def C01_exPot : AComp :=
+  { mods := [.minus],
+    name := [tk .word "large".toList, tk .ws [' '], tk .word "pot".toList],
+    qty := some { val := .num (.int ['2']) } }
+def C01_exPanL : AComp :=
+  { name := [tk .word "pan".toList],
+    qty := some { val := .num (.int ['2']), unit := some [tk .word ['l']] } }
+example : C01_exPot.wfCookware toyCharSpec C01_allExt = true := by decide
+example : C01_exPanL.wfCookware toyCharSpec C01_allExt = false := by decide
 
 end Cook
